@@ -687,7 +687,9 @@ fn gen_level(rng: &mut Rng, n: &mut usize, shorts: &mut Vec<char>, prefix: &str,
             }
             if rng.chance(1, 4) {
                 a.num_args = Some((0, Some(1)));
-                a.require_equals = true;
+                // without require_equals a value-less occurrence is only printed where the next token is
+                // another option (see gen_intent)
+                a.require_equals = rng.chance(2, 3);
                 if rng.chance(2, 3) {
                     a.default_missing = vec![gen_c06_value(rng, &a, 0)];
                 }
@@ -850,17 +852,21 @@ fn gen_intent(rng: &mut Rng, spec: &CmdSpec, faulty: bool) -> Intent {
                 }
                 Action::SetTrue | Action::SetFalse => li.occs.push(Occ { arg: a.id.clone(), values: vec![], form }),
                 Action::Append => {
-                    for _ in 0..rng.urange(1, 3) {
+                    let n_occ = rng.urange(1, 3);
+                    for j in 0..n_occ {
                         let k = if a.value_delimiter.is_some() && rng.chance(1, 3) { 2 } else { 1 };
                         let vals: Vec<String> = (0..k).map(|_| gen_c06_value(rng, a, bad_rate)).collect();
-                        let vals = if a.num_args == Some((0, Some(1))) && rng.chance(1, 3) { vec![] } else { vals };
+                        // (a value-less occurrence of an option that does not require `=` must be followed by
+                        // another option token, here the next occurrence of the same option)
+                        let may_be_empty = a.num_args == Some((0, Some(1))) && (a.require_equals || j + 1 < n_occ);
+                        let vals = if may_be_empty && rng.chance(1, 3) { vec![] } else { vals };
                         li.occs.push(Occ { arg: a.id.clone(), values: vals, form: rng.below(5) as u8 });
                     }
                 }
                 _ => {
                     let k = if a.value_delimiter.is_some() && rng.chance(1, 3) { 2 } else { 1 };
                     let vals: Vec<String> = (0..k).map(|_| gen_c06_value(rng, a, bad_rate)).collect();
-                    let vals = if a.num_args == Some((0, Some(1))) && rng.chance(1, 3) { vec![] } else { vals };
+                    let vals = if a.num_args == Some((0, Some(1))) && a.require_equals && rng.chance(1, 3) { vec![] } else { vals };
                     li.occs.push(Occ { arg: a.id.clone(), values: vals, form });
                 }
             }
@@ -1089,6 +1095,27 @@ fn check_against_skipping(spec: &CmdSpec, ex: &Expect, real: &POut, skip: Option
             match hit {
                 None => Some(("wrong-error-class", format!("{kind:?}"), format!("clap answered {kind:?} but the model predicts only {:?}: {rendered}", ex.errors))),
                 Some(_) => {
+                    if *kind == ErrorKind::MissingRequiredArgument {
+                        // the arguments reported as "not provided" do not include one that was supplied -- on the
+                        // command line or through its environment variable
+                        let listed: Vec<&str> = rendered.lines().skip_while(|l| !l.contains("not provided")).skip(1).take_while(|l| l.starts_with("  ")).collect();
+                        for exp in &ex.levels {
+                            for (id, e) in exp {
+                                if e.src == Src::Default {
+                                    continue;
+                                }
+                                let Some(a) = find_arg(spec, id) else { continue };
+                                let named = listed.iter().any(|l| {
+                                    let t = l.trim_start();
+                                    a.long.as_ref().map(|x| t == format!("--{x}") || t.starts_with(&format!("--{x} ")) || t.starts_with(&format!("--{x}="))).unwrap_or(false)
+                                        || (a.long.is_none() && a.short.map(|c| t == format!("-{c}") || t.starts_with(&format!("-{c} "))).unwrap_or(false))
+                                });
+                                if named {
+                                    return Some(("missing-names-supplied-argument", format!("{:?}", e.src), format!("argument {id} was supplied ({:?}) but the error lists it as not provided: {rendered}", e.src)));
+                                }
+                            }
+                        }
+                    }
                     if matches!(kind, ErrorKind::InvalidValue | ErrorKind::ValueValidation) {
                         // a value error must name an argument the model blames
                         let named = ex.errors.iter().filter(|(c, _)| *c == "value" || *c == "value-non-utf8").any(|(_, id)| {
